@@ -3,7 +3,7 @@
 tree="${1:-/repo}"
 out=$(mktemp /tmp/pinned.XXXXXX.xml)
 
-cd "$tree" && PYTHONPATH="$tree" /venv/bin/python -m pytest -ra -q -p no:cacheprovider --timeout=900 --continue-on-collection-errors --junitxml=$out >/tmp/pinned.log 2>&1
+cd "$tree" && OMP_NUM_THREADS=1 OPENBLAS_NUM_THREADS=1 PYTHONPATH="$tree" /venv/bin/python -m pytest -ra -q -p no:cacheprovider --timeout=900 --continue-on-collection-errors --junitxml=$out >/tmp/pinned.log 2>&1
 /venv/bin/python - "$out" <<'P'
 import json,sys,xml.etree.ElementTree as ET
 base=json.load(open('/root/.vp/BASELINE.json'))
